@@ -444,7 +444,7 @@ func (c *c02) runPar1(r *core.R, p c02Params, rng *rand.Rand) {
 		return
 	}
 	for _, d := range scen.DiffSnap(before, scen.Snapshot(root)) {
-		if !strings.HasPrefix(d, "created set/"+e.base+".") {
+		if !strings.HasPrefix(d, "created "+filepath.Base(e.dir)+"/"+e.base+".") {
 			r.Violate("create-changed-existing-file", "Create: %s", d)
 		}
 	}
